@@ -25,8 +25,9 @@ class Contract:
     def __init__(self, qual, params=None, requires=(), ensures=(), raises=None, modifies=(), returns=None, let=None,
                  inline=False, spec=None, drops=(), props=(), name=None, exc_ensures=None, hints=(),
                  use_at_calls=True, expect_raise_paths=None, path_assumes=(), trusted=False, note=None,
-                 allow_other_exc=(), overrides=None, max_paths=400, timeout_s=None, kwargs_call=None, pure=False):
+                 allow_other_exc=(), overrides=None, max_paths=400, timeout_s=None, kwargs_call=None, pure=False, varargs=None):
         self.pure = pure
+        self.varargs = varargs
         self.qual = qual
         self.name = name or qual
         self.params = params or {}
@@ -481,9 +482,12 @@ class Engine:
         exc = None
         self_obj = vals.get('self') if kind in ('method', 'getter', 'setter') else None
         args = {k: v for k, v in vals.items() if not (k == 'self' and self_obj is not None)}
+        pos = []
+        if c.varargs:
+            pos = list(args.pop(c.varargs))
         fn = Func(node, Env(m), m, self_obj=self_obj, cls=ci, name=c.qual)
         try:
-            result = it.call_func(fn, [], args)
+            result = it.call_func(fn, pos, args)
         except PyExc as e:
             outcome = 'raise'
             exc = e
@@ -601,7 +605,8 @@ class Engine:
         hy = axioms.build_hyps(self, ob.hyps, ob.univ, dict(ob.idx), {k: dict(v) for k, v in ob.apps.items()},
                                ob.sums, path, goal=g)
         s = z3.Solver()
-        s.set('timeout', self.vc_timeout_ms)
+        quick_ms = min(2500, self.vc_timeout_ms)
+        s.set('timeout', quick_ms)
         for h in hy:
             s.add(h)
         s.add(z3.Not(g))
@@ -610,14 +615,19 @@ class Engine:
         size = sum(1 for _ in axioms.walk(hy + [g])) if len(hy) < 400 else -len(hy)
         model = None
         if r == z3.unknown:
-            smt = s.to_smt2()
-            for be, cmd in (('z3-4.8.12', ['/usr/bin/z3', '-smt2', f'-T:{max(1, self.vc_timeout_ms // 1000)}']),
-                            ('cvc5-1.0.3', ['/usr/bin/cvc5', '--lang=smt2', f'--tlimit={self.vc_timeout_ms}'])):
-                rr = run_cli(cmd, smt)
-                if rr in ('unsat', 'sat'):
-                    backend = be
-                    r = z3.unsat if rr == 'unsat' else z3.sat
-                    break
+            # portfolio: the two CLI solvers side by side, then z3 5.1 again with the full budget
+            rr, be = run_portfolio(s.to_smt2(), self.vc_timeout_ms)
+            if rr in ('unsat', 'sat'):
+                backend = be
+                r = z3.unsat if rr == 'unsat' else z3.sat
+            elif self.vc_timeout_ms > quick_ms:
+                s.set('timeout', self.vc_timeout_ms)
+                r = s.check()
+        if r == z3.sat and not backend.startswith('z3py'):
+            # a model is needed for replay: ask z3 5.1 again (bounded); the verdict itself stands
+            s.set('timeout', self.vc_timeout_ms)
+            if s.check() != z3.sat:
+                pass
         if r == z3.sat:
             try:
                 mdl = s.model() if backend.startswith('z3py') else None
@@ -711,6 +721,44 @@ def val_json(v):
         a = v.approx(12)
         return a.numerator_as_long() / a.denominator_as_long()
     return str(v)
+
+
+def run_portfolio(smt, timeout_ms):
+    """z3 4.8.12 and cvc5 in parallel on the same SMT-LIB text; first decisive answer wins"""
+    import time as _t
+    if '(check-sat)' not in smt:
+        smt += '\n(check-sat)\n'
+    with tempfile.NamedTemporaryFile('w', suffix='.smt2', delete=False) as f:
+        f.write(smt)
+        fn = f.name
+    procs = []
+    try:
+        for be, cmd in (('z3-4.8.12', ['/usr/bin/z3', '-smt2', f'-T:{max(1, timeout_ms // 1000)}', fn]),
+                        ('cvc5-1.0.3', ['/usr/bin/cvc5', '--lang=smt2', f'--tlimit={timeout_ms}', fn])):
+            try:
+                procs.append((be, subprocess.Popen(cmd, stdout=subprocess.PIPE, stderr=subprocess.DEVNULL, text=True)))
+            except OSError:
+                pass
+        deadline = _t.time() + timeout_ms / 1000 + 5
+        pending = list(procs)
+        while pending and _t.time() < deadline:
+            for be, p in list(pending):
+                if p.poll() is not None:
+                    pending.remove((be, p))
+                    out = (p.stdout.read() or '').strip().splitlines()
+                    ans = out[0].strip() if out else 'unknown'
+                    if ans in ('sat', 'unsat'):
+                        return ans, be
+            _t.sleep(0.02)
+        return 'unknown', None
+    finally:
+        for be, p in procs:
+            if p.poll() is None:
+                p.kill()
+        try:
+            os.unlink(fn)
+        except OSError:
+            pass
 
 
 def run_cli(cmd, smt):
